@@ -135,9 +135,12 @@ def obligations(chk, prop, which=('verdict', 'summarize', 'forward', 'tee', 'or'
             o.verdict = 'inconclusive'
             o.detail += ' | no native replay for %s' % st
             return
-        lv = val('left.%s' % meth, val('inner.%s' % meth, 3))
-        rv = val('right.%s' % meth, 5)
-        res, out = replay.run_script('mode getters\nleft %s\nright %s\n' % (' '.join([str(lv)] * 6), ' '.join([str(rv)] * 6)), path)
+        # every getter of every side gets its own value (the counterexample's where it mentions one, else distinct defaults):
+        # a getter wired to the wrong statistic shows
+        lvs = [val('left.%s' % g, val('inner.%s' % g, 3 + 10 * i)) for i, g in enumerate(GETTERS)]
+        rvs = [val('right.%s' % g, 5 + 10 * i) for i, g in enumerate(GETTERS)]
+        lv, rv = lvs[GETTERS.index(meth)] if meth in GETTERS else lvs[2], rvs[GETTERS.index(meth)] if meth in GETTERS else rvs[2]
+        res, out = replay.run_script('mode getters\nleft %s\nright %s\n' % (' '.join(map(str, lvs)), ' '.join(map(str, rvs))), path)
         chk.replays += 1
         got = None
         for ln in out.splitlines():
@@ -149,7 +152,9 @@ def obligations(chk, prop, which=('verdict', 'summarize', 'forward', 'tee', 'or'
             o.detail += ' | native replay failed: %s' % out[-200:]
             return
         if meth == 'execution_has_failed':
-            want = 1 if (lv > 0 if st != 'Stats' else False) else 0
+            fails_l = any(lvs[GETTERS.index(g)] > 0 for g in ('failed_steps', 'parsing_errors', 'hook_errors'))
+            fails_r = any(rvs[GETTERS.index(g)] > 0 for g in ('failed_steps', 'parsing_errors', 'hook_errors'))
+            want = 0 if st == 'Stats' else 1 if (fails_l or (fails_r and st in ('Tee', 'Or'))) else 0
         else:
             want = max(lv, rv) if st == 'Tee' else lv + rv if st == 'Or' else 0 if st == 'Stats' else lv
         if got != want:
